@@ -38,9 +38,15 @@ def coroStep (st : CoroSt) (line : String) : CoroSt × String :=
   | "expect" :: e :: start :: _ :: rest =>
     let ys := ((rest.dropWhile (· != "Y")).drop 1).takeWhile (· != "R")
     let r := (rest.dropWhile (· != "R")).drop 1
+    let p := ((rest.dropWhile (· != "P")).drop 1).head?.bind String.toNat?     -- completion clause written after p yields
     match e.toNat?, ys.mapM parseCVal, r.head?.bind parseCVal with
     | some e, some ys, some r =>
-      ({ st with exps := store st.exps e { yields := ys, ret := r, eager := start == "eager" } }, "-")
+      let k := p.getD ys.length
+      if k > ys.length then (st, "parse-error") else
+      let clauses := (ys.take k).map Clause.coYield ++ [Clause.complete r] ++ (ys.drop k).map Clause.coYield
+      match Exp.ofClauses clauses (start == "eager") with
+      | some x => ({ st with exps := store st.exps e x }, "-")
+      | none => (st, "parse-error")
     | _, _, _ => (st, "parse-error")
   | ["call", c, e] =>
     match c.toNat?, e.toNat? with
